@@ -2,7 +2,7 @@
 coq/Model/PyIR.v (coq/Gen/ScMutators.v): the three helpers _add_simplex, _add_face, _remove_simplex_id - the only places where the
 class writes its tables - and, built on them, add_simplex as a whole (guards, `idx = next(self._edge_uid) if not idx else idx`,
 the calls, the loop over set(self._subfaces(members)) with its guard) and the public remove_simplex_id (the try/except KeyError
-frame, the loop over the ids _supfaces_id returns, the calls).  `Props/C03.v` proves that running them is what the model's
+frame, the loop over the ids _supfaces_id returns, the calls) and remove_simplex_ids_from (snapshot of the ids, guard, loop).  `Props/C03.v` proves that running them is what the model's
 `insert_edge` / `remove_edge1` / `add_simplex` / `remove_simplex_id` do.  The accepted statements are those of translate_mutators.py;
 `self._subfaces(...)`, `set(faces)` and `self._supfaces_id(self._edge[idx])` are accepted verbatim (their results are inputs of the runners)."""
 import ast, os
@@ -88,6 +88,22 @@ def translate():
     m.locals = ["supfaces_ids"]
     m.arg_calls = {"self._remove_simplex_id": "src_sc_remove_simplex_id"}
     out.append(f"Definition src_sc_remove_simplex_id_public : list stmt :=\n  {m.block(tb[1:])}.\n")
+    # remove_simplex_ids_from(self, ebunch): all_ids = set(self._edge.keys()); for idx in ebunch: <guards>; self.remove_simplex_id(idx)
+    f, body = _fn(cls[0], "remove_simplex_ids_from")
+    if [a.arg for a in f.args.args] != ["self", "ebunch"] or f.args.kwarg or f.args.vararg or f.args.kwonlyargs or f.args.defaults:
+        raise TranslationError("SimplicialComplex.remove_simplex_ids_from: unexpected parameters")
+    if len(body) != 2 or ast.unparse(body[0]) != "all_ids = set(self._edge.keys())" or not isinstance(body[1], ast.For) or body[1].orelse \
+            or ast.unparse(body[1].iter) != "ebunch" or not isinstance(body[1].target, ast.Name):
+        raise TranslationError("SimplicialComplex.remove_simplex_ids_from: expected `all_ids = set(self._edge.keys())` and a loop over ebunch")
+    x = body[1].target.id
+    m = M([x], [], None)
+    m.locals = ["all_ids"]
+    m.local_sets = True
+    m.item_mode = True
+    gs, rest = m.guards(body[1].body)
+    if len(rest) != 1 or ast.unparse(rest[0]) != f"self.remove_simplex_id({x})":
+        raise TranslationError("SimplicialComplex.remove_simplex_ids_from: expected the call self.remove_simplex_id(<the loop variable>) after the guards")
+    out.append(f"Definition src_sc_remove_ids_guards : list (bexp * guard_action) :=\n  [{'; '.join(gs)}].\n")
     return out
 
 
